@@ -164,6 +164,15 @@ Proof.
             snap_dead T (c0 :: map snd sc) (snp c0 sc k) = true).
   { intros k Hk H. eapply forallb_dead_in; [exact H | apply snap_in; assumption]. }
   assert (Hcin : forall k, In (clk c0 sc k) (c0 :: map snd sc)) by (intros k; rewrite <- Hclk; apply clock_in).
+  assert (HKtwo : forallb (fun p : snap * Z => snap_alive T (c0 :: map snd sc) (fst p)) sc = true -> K = 2%nat).
+  { intros Hal.
+    destruct (connect_alive_at_once m T e _ (script_fuel sc) Ha Hw) as (n & v & h1 & t & h2 & E2).
+    - intros j. rewrite Hsnap. pose proof (Halive 1%nat (le_n _) Hal) as A.
+      apply alive_facts in A as (A1 & A2 & A3 & A4 & _). split; [split; [exact A1 | split; assumption] | exact A4].
+    - rewrite Hsnap, Hclk. pose proof (Halive 2%nat ltac:(lia) Hal) as A.
+      apply alive_facts in A as (_ & _ & _ & _ & Hall). specialize (Hall _ (Hcin 1%nat)). exact Hall.
+    - unfold script_fuel. lia.
+    - rewrite Ec in E2. injection E2 as _ E3. exact E3. }
   destruct r as [n v h1 t h2 | er w t | | |]; try congruence; cbn [kind_of post] in *.
   - (* Ok *)
     destruct Hpost as (HK2 & Ht & Hh2 & Hst & (Hsz & Hv & Hv0 & Hvo) & Hh1 & (j & Hj)).
@@ -183,7 +192,7 @@ Proof.
     destruct (forallb (fun p : snap * Z => snap_dead T (c0 :: map snd sc) (fst p)) sc) eqn:Ed.
     + exfalso. specialize (Hdead K ltac:(lia) eq_refl). apply dead_facts in Hdead as (_ & _ & _ & Hall).
       specialize (Hall _ (Hcin (K - 1)%nat)). unfold stale in Hall. congruence.
-    + destruct (forallb _ sc); reflexivity.
+    + destruct (forallb (fun p : snap * Z => snap_alive T (c0 :: map snd sc) (fst p)) sc) eqn:Eal; [rewrite (HKtwo eq_refl); reflexivity | reflexivity].
   - (* Err *)
     destruct er; cbn [post] in Hpost.
     + (* EMapFile *)
